@@ -233,8 +233,11 @@ func init() {
 			Models: []gcsModel{{Module: "MC_GcsConds", Quick: map[string]string{"WithBad": "TRUE"}, Thorough: map[string]string{"WithBad": "TRUE"},
 				SampleQ: "5", SampleT: "1", Invariants: []string{"InvGen"}, Properties: []string{"FailedIsNoop", "CondLaw"}}},
 			Gen: func(r *rand.Rand) []gcs.Op {
-				if r.Intn(6) == 0 {
+				switch r.Intn(8) {
+				case 0:
 					return genStalePatchProgram(r)
+				case 1:
+					return genComposeCondProgram(r)
 				}
 				return genGcsProgram(r, gcsProfile{fileSafe: true, n: 24, pCond: 0.6, wUpload: 3, wResum: 1, wPatch: 2, wDelete: 1.5, wRead: 0.5, wCompose: 1, wCopy: 0.2, fewNames: 3, maxResum: 20, wBatch: 0.8})
 			}, NRandQ: 50, NRandT: 6000})
@@ -335,6 +338,30 @@ func genStalePatchProgram(r *rand.Rand) []gcs.Op {
 	r.Shuffle(len(cases), func(a, c int) { cases[a], cases[c] = cases[c], cases[a] })
 	for i, cs := range cases {
 		prog = append(prog, gcs.Op{Ev: "Patch", B: b, N: n, Meta: []gcs.KVB{{K: j.S("s"), V: j.S(fmt.Sprint(i))}}, Conds: cs, Junk: true})
+	}
+	return prog
+}
+
+// genComposeCondProgram: composes whose source list names one object several times with different source-level
+// preconditions (none / current generation / an earlier generation / another generation), in every order: every entry's
+// condition counts, and a compose that fails one of them changes nothing.
+func genComposeCondProgram(r *rand.Rand) []gcs.Op {
+	b := gcsBuckets[0]
+	nc := gcs.NoConds()
+	up := func(n, content string) gcs.Op {
+		return gcs.Op{Ev: "Upload", B: b, N: j.S(n), Proto: "media", Content: j.S(content), Decl: "none", Attrs: []gcs.KV{{K: "ct", V: j.S("text/plain")}}, Conds: nc}
+	}
+	prog := []gcs.Op{{Ev: "CreateBucket", B: b}, up("a.txt", "A1"), up("b.txt", "B1"), up("a.txt", "A2"), up("dst", "D0")}
+	conds := []gcs.Cond{gcs.Unset(), {K: "val", Sym: "cur"}, {K: "val", Sym: "prev"}, {K: "val", Sym: "other"}}
+	for i := 0; i < 8; i++ {
+		op := gcs.Op{Ev: "Compose", B: b, N: j.S("dst"), Attrs: []gcs.KV{{K: "ct", V: j.S("text/plain")}}, Conds: nc}
+		first := []string{"a.txt", "b.txt"}[r.Intn(2)]
+		op.Srcs = append(op.Srcs, gcs.Src{N: j.S(first), Gm: conds[r.Intn(2)]}) // the first occurrence passes
+		if r.Intn(3) == 0 {
+			op.Srcs = append(op.Srcs, gcs.Src{N: j.S("b.txt"), Gm: gcs.Unset()})
+		}
+		op.Srcs = append(op.Srcs, gcs.Src{N: j.S(first), Gm: conds[r.Intn(len(conds))]}) // a later occurrence of the same object: any condition
+		prog = append(prog, op)
 	}
 	return prog
 }
